@@ -42,6 +42,7 @@ func (r *run) body(evs []Ev) {
 	r.mon.afterSetup(r)
 	for i, e := range evs {
 		r.step = i + 1
+		r.evSlow, r.evStall = 0, nil
 		r.dispatch(e)
 		r.afterEvent(e)
 	}
@@ -303,25 +304,39 @@ func (r *run) open(a *actor, e Ev) {
 		}
 	}
 	d := &dtState{key: key, kind: kind, mode: mode}
-	h := orda.NewHandlers(
-		func(dt orda.Datatype, old, nw model.StateOfDatatype) {
-			d.mu.Lock()
-			d.chg = append(d.chg, stateChange{old, nw})
-			d.mu.Unlock()
-		},
-		func(dt orda.Datatype, ops []interface{}) {
-			ids := flattenOpIDs(ops)
-			d.mu.Lock()
-			d.rops = append(d.rops, ids...)
-			d.mu.Unlock()
-		},
-		func(dt orda.Datatype, errs ...errors.OrdaError) {
-			d.mu.Lock()
-			for _, x := range errs {
-				d.errs = append(d.errs, fmt.Sprintf("%d:%s", x.GetCode(), x.Error()))
-			}
-			d.mu.Unlock()
-		})
+	onState := func(dt orda.Datatype, old, nw model.StateOfDatatype) {
+		d.mu.Lock()
+		d.chg = append(d.chg, stateChange{old, nw})
+		d.mu.Unlock()
+	}
+	onRemote := func(dt orda.Datatype, ops []interface{}) {
+		ids := flattenOpIDs(ops)
+		d.mu.Lock()
+		d.rops = append(d.rops, ids...)
+		d.mu.Unlock()
+	}
+	onError := func(dt orda.Datatype, errs ...errors.OrdaError) {
+		d.mu.Lock()
+		for _, x := range errs {
+			d.errs = append(d.errs, fmt.Sprintf("%d:%s", x.GetCode(), x.Error()))
+		}
+		d.mu.Unlock()
+	}
+	// the three handlers are optional: an application registers the ones it needs
+	d.noState, d.noRemote, d.noErr = e.N&1 != 0, e.N&2 != 0, e.N&4 != 0
+	if d.noState {
+		onState = nil
+	}
+	if d.noRemote {
+		onRemote = nil
+	}
+	if d.noErr {
+		onError = nil
+	}
+	if e.N&7 != 0 {
+		r.probe("open-without-some-handler")
+	}
+	h := orda.NewHandlers(onState, onRemote, onError)
 	var pub interface{}
 	msg, fp := safely(func() {
 		c := a.client
